@@ -20,6 +20,8 @@ package gohbase
 // goroutine of the client is left.
 
 import (
+	"sync/atomic"
+	"bytes"
 	"context"
 	"errors"
 	"fmt"
@@ -664,6 +666,122 @@ func TestVerifC20(t *testing.T) {
 				run(params{name: fmt.Sprintf("grid/nreg=%d/m=%d/order=%d/kill-during-probe", nreg, m, oi), nreg: nreg, m: m, order: o, killDuringProbe: true, queue: 2})
 			}
 		}
+	}
+	// a connection error that is looked at LATE: two regions share connection 1 of rs1; it breaks while a get (region B) and a
+	// batch (a put for region A on rs1 and one for a region on rs2, whose answer is held back) are outstanding; the get's
+	// caller declares connection 1 dead and both regions move to connection 2; only then the batch looks at the error its put
+	// got from connection 1. That is old news about connection 1: connection 2 must stay. (SendBatch waits for its servers in
+	// Go map order, so the scenario is repeated: in about half of the runs the held server is waited for first.)
+	for rep2 := 0; rep2 < 10; rep2++ {
+		name := fmt.Sprintf("stale-error/%d", rep2)
+		synctest.Test(t, func(t *testing.T) {
+			tr := &verifsim.Trace{}
+			cl := verifsim.NewCluster(tr)
+			for _, a := range []string{"ms", "rs1", "rs2"} {
+				cl.AddServer(a)
+			}
+			cl.CreateTable("t", [][]byte{[]byte("h"), []byte("p")}, []string{"rs1", "rs1", "rs2"}) // A=[,h) B=[h,p) on rs1; C=[p,) on rs2
+			var mu sync.Mutex
+			var evs []map[string]any
+			emit := func(e map[string]any) { mu.Lock(); evs = append(evs, e); mu.Unlock() }
+			simSetHook(func(point string, c any, arg any) {
+				if point == "clientDown.removed" {
+					if r, ok := arg.(hrpc.RegionInfo); ok {
+						addr := "rs1"
+						if bytes.HasPrefix(r.Name(), []byte("t,p")) {
+							addr = "rs2"
+						} else if bytes.HasPrefix(r.Name(), []byte("hbase:meta")) {
+							addr = "ms"
+						}
+						emit(map[string]any{"ev": "declaredDead", "addr": addr})
+					}
+				}
+			})
+			cl.DialHook = func(addr string) { emit(map[string]any{"ev": "dial", "addr": addr}) }
+			hold := make(chan struct{})
+			var armed, held, cut atomic.Bool
+			cl.Rules = append(cl.Rules, func(c *verifsim.Cluster, rs *verifsim.RS, sc *verifsim.ServerConn, req *verifsim.Request, name []byte) *verifsim.Directive {
+				if verifsim.IsProbe(req) || !armed.Load() {
+					return nil
+				}
+				if rs.Addr == "rs2" && req.Method == "Multi" && held.CompareAndSwap(false, true) {
+					return &verifsim.Directive{Hold: hold}
+				}
+				if rs.Addr == "rs1" && !cut.Load() && (req.Method == "Multi" || string(verifsim.RowOf(req)) == "k-slow") {
+					return &verifsim.Directive{Silent: true} // outstanding on connection 1 until it is cut
+				}
+				return nil
+			})
+			c := newSimClient(cl, RpcQueueSize(4))
+			get := func(k string) error {
+				g, _ := hrpc.NewGet(context.Background(), []byte("t"), []byte(k))
+				_, err := c.Get(g)
+				return err
+			}
+			quiesce := func() {
+				time.Sleep(200 * time.Millisecond)
+				synctest.Wait()
+				open := []map[string]any{}
+				for _, a := range []string{"ms", "rs1", "rs2"} {
+					open = append(open, map[string]any{"addr": a, "n": cl.OpenConns(a)})
+				}
+				emit(map[string]any{"ev": "quiesce", "open": open})
+			}
+			for _, k := range []string{"a0", "k0", "q0"} { // all three regions known, one connection per server
+				if err := get(k); err != nil {
+					rep.bad("request-failed", "%s: get %q failed: %v", name, k, err)
+				}
+			}
+			quiesce()
+			armed.Store(true)
+			var wg sync.WaitGroup
+			wg.Add(2)
+			go func() {
+				defer wg.Done()
+				vals := map[string]map[string][]byte{"f": {"q": []byte("v")}}
+				p1, _ := hrpc.NewPut(context.Background(), []byte("t"), []byte("a-batch"), vals)
+				p2, _ := hrpc.NewPut(context.Background(), []byte("t"), []byte("q-batch"), vals)
+				if res, ok := c.SendBatch(context.Background(), []hrpc.Call{p1, p2}); !ok {
+					rep.bad("request-failed", "%s: the batch failed: %v", name, res)
+				}
+			}()
+			go func() {
+				defer wg.Done()
+				if err := get("k-slow"); err != nil {
+					rep.bad("request-failed", "%s: get k-slow failed: %v", name, err)
+				}
+			}()
+			time.Sleep(50 * time.Millisecond)
+			synctest.Wait()
+			cut.Store(true)
+			cl.ResetConns("rs1") // connection 1 dies: the get's caller notices at once, the batch is still waiting for rs2
+			time.Sleep(2 * time.Second)
+			synctest.Wait()
+			quiesce() // both regions of rs1 are on connection 2 by now
+			close(hold) // rs2 answers: the batch now looks at what connection 1 told it
+			wg.Wait()
+			quiesce()
+			if err := get("a1"); err != nil {
+				rep.bad("request-failed", "%s: get a1 failed: %v", name, err)
+			}
+			quiesce()
+			c.Close()
+			emit(map[string]any{"ev": "closeReturned"})
+			quiesce()
+			time.Sleep(2 * time.Minute)
+			synctest.Wait()
+			for _, a := range []string{"ms", "rs1", "rs2"} {
+				cl.ResetConns(a)
+			}
+			time.Sleep(time.Minute)
+			synctest.Wait()
+			ndj.Write(map[string]any{"ev": "reset", "scenario": name})
+			for _, e := range evs {
+				ndj.Write(e)
+			}
+			rep.Scenarios++
+			rep.Distinct++
+		})
 	}
 	// the only region a server hosts is replaced (split, merge back) and its successors live at the same address: the
 	// healthy connection must be reused, not forgotten
